@@ -23,7 +23,10 @@ ASSUMPTIONS = [
 ]
 
 KNOWN_ALABELS = {"bücher": "xn--bcher-kva", "é": "xn--9ca", "例え": "xn--r8jz45g", "жж": "xn--f1aa", "рф": "xn--p1ai", "ЖЖ": "xn--f1aa",
-                 "BÜCHER": "xn--bcher-kva", "日本語": "xn--wgv71a119e"}
+                 "BÜCHER": "xn--bcher-kva", "日本語": "xn--wgv71a119e",
+                 # UTS #46 maps a capital sigma to the NON-final small sigma wherever it stands (str.lower() would pick the final form)
+                 "ΕΛΛΑΣ": "xn--mxahsa5b", "ΟΔΟΣ-1": "xn---1-k9b7bby", "ΚΟΣΜΟΣ": "xn--vxaeibsc", "ΣΊΣΥΦΟΣ": "xn--kxa6akbbkh",
+                 "İSTANBUL": "xn--istanbul-o0e", "É": "xn--9ca", "Ñ": "xn--ida"}
 
 # parts also run by 4 threads at once in one process (runner adds the jobs; see yv/ctx.py Ctx.threaded)
 SHARED = [("labels", {"n": 1200}, {"n": 25000})]
@@ -485,7 +488,7 @@ UPPER = ["EXAMPLE", "Www", "Ab-C", "XN--9CA"]
 SUBD = ["a_b", "a!b", "a$b", "a&b", "a'b", "(a)", "a*b", "a+b", "a,b", "a;b", "a=b", "a~b"]
 IDN08 = ["é", "bücher", "例え", "жж", "日本語", "straße", "ñandú", "ελληνικά", "한국"]
 IDN03 = ["a_é", "☃", "😀", "é_", "_é"]
-IDNUP = ["BÜCHER", "ЖЖ", "É", "Ñ"]
+IDNUP = ["BÜCHER", "ЖЖ", "É", "Ñ", "ΕΛΛΑΣ", "ΟΔΟΣ-1", "ΚΟΣΜΟΣ", "ΣΊΣΥΦΟΣ", "İSTANBUL"]  # (capital final sigma: str.lower() and UTS #46 fold it differently)
 
 
 def run_labels(ctx):
